@@ -319,7 +319,7 @@ class Tr:
             return self.contk()
         if self.loops and isinstance(s, ast.For):
             return self.for_loop(s, rest, k, ind)
-        if self.loops and isinstance(s, ast.Assign) and len(s.targets) == 1 and isinstance(s.targets[0], ast.Tuple):
+        if isinstance(s, ast.Assign) and len(s.targets) == 1 and isinstance(s.targets[0], ast.Tuple):
             tg, val = s.targets[0], s.value
             if not (isinstance(val, ast.Tuple) and len(val.elts) == len(tg.elts) and all(isinstance(n, ast.Name) for n in tg.elts)
                     and len({n.id for n in tg.elts}) == len(tg.elts)):
